@@ -187,6 +187,7 @@ WriteChunks(S, h, data, ack) ==
 
 Write(h, data, ack) ==
   /\ nops < MaxOps /\ h \in 1..Len(st) /\ st[h].api
+  /\ (ack => Current(h))          \* the device does not answer on an earlier stream whose id was handed out again
   /\ LET w == WriteChunks(S0, h, data, ack) IN
      Commit(w.S, <<"write", h, data, ack>>, IF w.err = "" THEN "ok" ELSE w.err)
   /\ UNCHANGED <<devw, hostr>>
